@@ -193,3 +193,84 @@ PROPS["C01"] = {
         {"name": "auto", "mode": "rapid", "run": "TestC01Auto", "checks": {"quick": 1600, "thorough": 40000}},
     ],
 }
+
+PROPS["C03"] = {
+    "level": "exploration",
+    "rule": ("(initial OCI spec, edit list, host-node directory) drawn by rapid. OCI spec: Process / Linux / Resources / IntelRdt / Hooks / "
+             "Mounts each nil, empty or populated, process uid/gid zero or not, existing env, devices, cgroup rules, mounts, hooks, GIDs, RDT, "
+             "bystander fields. Edits: <= 5 entries per kind over small pools so that variable names, container paths and destinations "
+             "repeat inside the edits and hit existing OCI entries; device nodes with type in {unset,c,b,p,u}, major/minor 0 or given, "
+             "host node by hostPath or by path itself, pointing at mknod-created char/block nodes, a FIFO, a regular file, a directory, "
+             "a symlink and a missing name; 1 case in 8 has 14..40 mounts of equal depth (Go's sort is stable below 13 elements). "
+             "Oracle: the postcondition predicate of DESIGN.md C03 (checkEditsApplied), evaluated against a deep copy of the spec taken "
+             "before Apply: env last-entry-wins per name and all other names' entries unchanged; one node per container path = last edit, "
+             "host type/major/minor when unspecified, uid/gid defaulting, file mode verbatim, untouched nodes unchanged; cgroup rules = "
+             "old rules + one allow rule per b/c node edit in order; mounts = last mount per destination, ordered by depth, stable; "
+             "hooks appended per stage; GIDs appended without duplicates and without 0; RDT replaced; the rest of the spec identical. "
+             "A needed host node that is missing or not a device => Apply must fail; a given type that contradicts the host type is a "
+             "don't-care. Non-trivial iff the edits hit an existing entry, repeat a key, or need the host; distinct = distinct (spec, edits)."),
+    "assumptions": ["the initial OCI spec has unique device paths and mount destinations, and no two spellings of one cleaned destination occur in a case",
+                    "explicit minor with major 0, type 'u' rules, and the position of a mount that replaced an original one are don't-cares",
+                    "mknod is available (root); otherwise /dev/null, /dev/zero, /dev/full and a FIFO are used and the evidence says so"],
+    "manifest": {
+        "text": ("Random OCI specs x valid edit lists x host nodes of every kind, checked against a validity predicate that admits every "
+                 "output the statement admits and nothing else. Sampling over small pools; not exhaustive."),
+        "note": "trusted: the predicate checkEditsApplied (props/c03_test.go), written from the statement and SPEC.md; host nodes created with mknod",
+        "technique": "property-based testing: rapid generators, validity-predicate oracle over the result",
+    },
+    "health": {"quick": {"outcome:ok": 10000, "outcome:must-error": 2000, "env-hits-existing": 2000, "env-repeated-in-edits": 2000,
+                         "device-hits-existing": 1000, "device-path-repeated-in-edits": 1000, "mount-hits-existing": 1000,
+                         "mount-dest-repeated-in-edits": 1000, "mounts-13-or-more": 1000, "host:c": 1000, "host:b": 1000, "host:p": 500,
+                         "rdt-overrides-existing": 500, "oci-process-nil": 1000, "oci-process-uid-nonzero": 1000, "gid-zero": 1000}},
+    "units": [
+        {"name": "regress", "mode": "plain", "run": "TestC03Regress"},
+        {"name": "rapid", "mode": "rapid", "run": "TestC03Rapid", "checks": {"quick": 240000, "thorough": 4800000}},
+    ],
+}
+
+PROPS["C02"] = {
+    "level": "exploration",
+    "rule": ("A layout as in C01 (<= 4 slots, <= 3 files per directory, shadowing and conflicts via the scenario overlay) whose Spec files "
+             "carry rich generated edits (env, device nodes with explicit type/major, mounts, hooks, RDT, GIDs at spec level and per "
+             "device) in which every env name, device path, mount destination and hook path embeds a token unique to (file, device); a "
+             "generated OCI spec; a request = a random-length prefix (1..6) of a random permutation of the names the model resolves. "
+             "Oracle (differential by definition): the harness builds the combined edit list from the generated documents in request order "
+             "(spec-level edits of the resolved file the first time one of its devices is met, then the device's edits; RDT = last one "
+             "present), applies it with ContainerEdits.Apply to a copy, and the normalised JSON image must equal the image after "
+             "InjectDevices on another copy; and the result must contain no token of a non-requested device, a shadowed file, an ignored "
+             "or uninvolved file. Non-trivial iff devices of one file are interleaved with a device of another file in the request, or a "
+             "requested name is also defined in a shadowed (lower-priority) file; distinct = distinct (layout, request, OCI spec)."),
+    "assumptions": ["ContainerEdits.Apply itself is judged by C03; C02 is defined relative to applying the combined list",
+                    "requests with repeated names are outside the statement ('distinct') and not generated"],
+    "manifest": {
+        "text": ("Differential test of InjectDevices against an independently composed edit list over generated cache contents, with "
+                 "unique markers making foreign edits visible even if both sides agreed. Sampling."),
+        "note": "trusted: layout.Resolve for which file a name resolves to; ContainerEdits.Apply as the reference applier (checked separately by C03)",
+        "technique": "property-based testing: differential oracle (independently built combined edit list), marker-based non-interference check",
+    },
+    "health": {"quick": {"devices-of-one-file-interleaved-with-another": 300, "requested-device-also-defined-in-shadowed-file": 1000, "files-2": 1000, "files-3": 300}},
+    "units": [
+        {"name": "rapid", "mode": "rapid", "run": "TestC02Rapid", "checks": {"quick": 24000, "thorough": 480000}},
+    ],
+}
+
+PROPS["C04"] = {
+    "level": "exploration",
+    "rule": ("A layout as in C01, a generated OCI spec (or nil in 1 of 10 cases) and a request of 1..8 names drawn from: names the model "
+             "resolves, pool names that are unknown / defined only in invalid files, names removed by a same-priority conflict, 20 "
+             "syntactically invalid strings (empty, missing parts, trailing separators, blanks, newline), names of a foreign vendor, and "
+             "repetitions of earlier entries. Oracle: U = the subsequence of the request that layout.Resolve does not resolve; if U is "
+             "non-empty the call returns exactly U (order, multiplicity) and an error and the OCI spec's JSON image equals that of the "
+             "copy taken before; if U is empty it returns (nil, nil); nil spec: whole request and an error. Non-trivial iff the request "
+             "mixes >= 1 resolvable and >= 1 unresolvable name on a populated OCI spec; distinct = distinct (layout, request)."),
+    "assumptions": ["unmodified is judged on the JSON image and on reflect.DeepEqual of JSON clones"],
+    "manifest": {
+        "text": "Random mixed requests against generated cache contents with the expected miss list computed by the independent resolution model; sampling.",
+        "note": "trusted: layout.Resolve",
+        "technique": "property-based testing: reference-model oracle for the miss list, before/after image comparison of the OCI spec",
+    },
+    "health": {"quick": {"mixed-resolvable-and-unresolvable": 3000, "req:conflict-removed": 300, "req:invalid-syntax": 1000, "req:repetition": 1000, "nil-oci-spec": 500, "all-resolve": 500}},
+    "units": [
+        {"name": "rapid", "mode": "rapid", "run": "TestC04Rapid", "checks": {"quick": 24000, "thorough": 480000}},
+    ],
+}
